@@ -1086,6 +1086,12 @@ class Sim:
                         if m.box is not None:
                             me.box = m.box[:-1]
                         variants.append(("one model fewer", me))
+                if m.coord.size:
+                    # the smallest difference single precision can express (equality is exact, not "close")
+                    mt = m.copy()
+                    flat = mt.coord.reshape(-1)
+                    flat[-1] = np.nextafter(flat[-1], np.float32(np.inf), dtype=np.float32)
+                    variants.append(("one coordinate by one unit in the last place", mt))
                 mx = m.copy()
                 mx.ann["uid2"] = [0] * m.n
                 variants.append(("one more annotation category", mx))
